@@ -109,6 +109,9 @@ def classify(node, parents):
                     return "Ordered", "set.pop()"
                 return "Ordered", "method " + str(m)
             n = tname(p.func)
+            if n in ("sorted", "min", "max") and any(k.arg == "key" for k in p.keywords):
+                # a key function need not be injective: elements with equal keys keep the order the set yields them in
+                return "Ordered", "%s with a key function (ties keep the set's order)" % n
             if n in INSENSITIVE_CALLS:
                 return "Insensitive", "consumed by " + n
             if n in TRANSPARENT_CALLS:
@@ -217,6 +220,8 @@ def scan_module(mod, tree, sites, mutdefaults, globals_mut):
     MUT_METHODS = {"append", "extend", "add", "update", "setdefault", "pop", "popitem", "clear", "insert", "remove", "discard", "sort",
                    "reverse", "__setitem__", "appendleft"}
     mod_mutables = set()
+    imported_from_cdd = {a.asname or a.name for st in tree.body if isinstance(st, ast.ImportFrom) and (st.module or "").startswith("cdd")
+                         for a in st.names}
     for st in tree.body:
         tgt, val = None, None
         if isinstance(st, ast.Assign) and len(st.targets) == 1 and isinstance(st.targets[0], ast.Name):
@@ -242,6 +247,23 @@ def scan_module(mod, tree, sites, mutdefaults, globals_mut):
                 name = n.func.value.id
             if name in mod_mutables and name not in local:
                 globals_mut.append({"module": mod, "function": f.name, "line": n.lineno, "what": "mutates module-level " + name})
+            # ... of ANOTHER module: through its dotted path (cdd.x.y.NAME.setdefault(..), cdd.x.y.NAME[k] = v) or a from-imported name
+            dotted = None
+            if isinstance(n, (ast.Assign, ast.AugAssign, ast.Delete)):
+                tg = n.targets if isinstance(n, (ast.Assign, ast.Delete)) else [n.target]
+                for t in tg:
+                    if isinstance(t, ast.Subscript) and isinstance(t.value, ast.Attribute):
+                        dotted = t.value
+            elif isinstance(n, ast.Call) and isinstance(n.func, ast.Attribute) and n.func.attr in MUT_METHODS and isinstance(n.func.value, ast.Attribute):
+                dotted = n.func.value
+            if dotted is not None:
+                root = dotted
+                while isinstance(root, ast.Attribute):
+                    root = root.value
+                if isinstance(root, ast.Name) and root.id == "cdd" and root.id not in local:
+                    globals_mut.append({"module": mod, "function": f.name, "line": n.lineno, "what": "mutates " + U(dotted)})
+            if name is not None and name in imported_from_cdd and name not in local and name not in mod_mutables:
+                globals_mut.append({"module": mod, "function": f.name, "line": n.lineno, "what": "mutates imported " + name})
     for f in funcs:
         a = f.args
         for d in a.defaults + [x for x in a.kw_defaults if x is not None]:
